@@ -419,19 +419,27 @@ def projection(sensors):
             continue
         children = {}
         for cid, child in sensor.children.items():
-            if not hasattr(child, "values"):
+            if not isinstance(getattr(child, "values", None), dict) or not hasattr(child, "type") or not hasattr(child, "description"):
+                # (a plain dict has a .values too - a method)
                 children[cid] = ("not-a-child", type(child).__name__, {})
                 continue
             children[cid] = (child.type if child.type is None else int(child.type),
                              child.description, dict(child.values))
+        def attr(name, sensor=sensor):
+            try:
+                return getattr(sensor, name)
+            except AttributeError:
+                return "<attribute missing>"  # eg lost in a save / load round trip: reported as a difference, not as a crash
+
+        ntype = attr("type")
         out[nid] = {
             "sensor_id": sensor.sensor_id,
-            "type": sensor.type if sensor.type is None else int(sensor.type),
-            "sketch_name": sensor.sketch_name,
-            "sketch_version": sensor.sketch_version,
-            "battery_level": sensor.battery_level,
-            "protocol_version": sensor.protocol_version,
-            "heartbeat": sensor.heartbeat,
+            "type": ntype if ntype is None or isinstance(ntype, str) else int(ntype),
+            "sketch_name": attr("sketch_name"),
+            "sketch_version": attr("sketch_version"),
+            "battery_level": attr("battery_level"),
+            "protocol_version": attr("protocol_version"),
+            "heartbeat": attr("heartbeat"),
             "children": children,
         }
     return out
